@@ -531,8 +531,11 @@ func VerifyObjectCopyAccess(ctx context.Context, be backend.Backend, copySource 
 	}
 	// the access decision is about the source key: a version id suffix
 	// (split off the same way the backends do) is not part of it
+	srcAction := GetObjectAction
 	if i := strings.LastIndex(srcObject, "?versionId="); i != -1 {
 		srcObject = srcObject[:i]
+		// reading a specific version is its own action, as in GetObject
+		srcAction = GetObjectVersionAction
 	}
 
 	// Get source bucket ACL
@@ -553,7 +556,7 @@ func VerifyObjectCopyAccess(ctx context.Context, be backend.Backend, copySource 
 		Acc:           opts.Acc,
 		Bucket:        srcBucket,
 		Object:        srcObject,
-		Action:        GetObjectAction,
+		Action:        srcAction,
 	}); err != nil {
 		return err
 	}
